@@ -74,6 +74,7 @@ func targetMain(args []string) {
 	ntpPort := fs.Int("ntpport", 123, "NTP port (IP)")
 	scionPort := fs.Int("scionport", 10123, "NTP port (SCION)")
 	ia := fs.String("ia", "1-ff00:0:110", "local ISD-AS (NTS-KE over SCION)")
+	daemon := fs.String("daemon", "", "SCION daemon address handed to the SCION server (DRKey)")
 	_ = fs.Parse(args)
 	ctx := context.Background()
 	log := slog.New(&fwdHandler{w: os.Stdout})
@@ -91,7 +92,7 @@ func targetMain(args []string) {
 		case "ip":
 			server.StartIPServer(ctx, log, &net.UDPAddr{IP: lip, Port: *ntpPort}, 0, provider)
 		case "scion":
-			server.StartSCIONServer(ctx, log, "", &net.UDPAddr{IP: lip, Port: *scionPort}, 0, provider)
+			server.StartSCIONServer(ctx, log, *daemon, &net.UDPAddr{IP: lip, Port: *scionPort}, 0, provider)
 		case "disp":
 			server.StartSCIONDispatcher(ctx, log, &net.UDPAddr{IP: net.ParseIP(*ip2), Port: 0})
 		case "ntske":
@@ -157,6 +158,12 @@ type Target struct {
 // StartTarget launches the listeners in a child process of the given build variant and
 // waits for them to be bound.
 func StartTarget(variant string, args ...string) (*Target, error) {
+	return StartTargetEnv(variant, nil, args...)
+}
+
+// StartTargetEnv is StartTarget with additional environment entries (later entries win, so
+// "USE_MOCK_KEYS=false" runs the listeners with real DRKey fetching).
+func StartTargetEnv(variant string, env []string, args ...string) (*Target, error) {
 	bin := os.Getenv("VERIF_MON_PLAIN")
 	if variant == "race" {
 		bin = os.Getenv("VERIF_MON_RACE")
@@ -166,7 +173,7 @@ func StartTarget(variant string, args ...string) (*Target, error) {
 	}
 	t := &Target{stderr: &bytes.Buffer{}, logCh: make(chan string, 4096), done: make(chan struct{})}
 	t.cmd = exec.Command(bin, append([]string{"leg", "target"}, args...)...)
-	t.cmd.Env = append(os.Environ(), "USE_MOCK_KEYS=true", "GOTRACEBACK=all")
+	t.cmd.Env = append(append(os.Environ(), "USE_MOCK_KEYS=true", "GOTRACEBACK=all"), env...)
 	t.cmd.Stderr = t.stderr
 	t.cmd.SysProcAttr = &syscall.SysProcAttr{Pdeathsig: syscall.SIGKILL} // never outlive the monitor: the ports must be free for the next run
 	out, err := t.cmd.StdoutPipe()
